@@ -41,5 +41,8 @@ d=re.sub(r'\n<!-- section0:begin -->.*?<!-- section0:end -->\n', '\n', d, flags=
 marker='\n--------------------------------------------------------------------------\n\n## 1. The technique'
 assert marker in d
 d=d.replace(marker, '\n--------------------------------------------------------------------------\n\n<!-- section0:begin -->\n'+sec0+'\n<!-- section0:end -->\n'+marker,1)
+sep='-'*74+'\n'
+while sep+'\n\n'+sep in d:
+    d=d.replace(sep+'\n\n'+sep, sep)
 open(V+'/DESIGN.md','w').write(d)
 print('ok', sorted(props))
